@@ -1,2 +1,70 @@
-(* C13 - placeholder, theorems follow *)
-From CBI Require Import Model.C13i.
+(* C13 - Compilation-database entries resolve to the right files and directories.
+   Only statements, each closed by [exact], with its assumptions printed.
+
+   M = Model/C13.v (load_database of the REPAIRED code, on strings, with the
+       posixpath model of Model/C13p.v);
+   S = Spec/C13.v (locations: `directory` relative to the root, `file` and -I
+       relative to that directory, component by component). *)
+From Coq Require Import Bool Arith Ascii String List.
+From CBI Require Import Lib.Res Model.C13p Model.C13fs Model.C13 Spec.C13 Proofs.C13p Proofs.C13.
+Import ListNotations.
+
+(* For EVERY working directory string that is absolute, EVERY rootdir, directory
+   (absent / absolute / relative) and file spelling, with any '.', '..', '//':
+   the string M puts in entry["file"] is the rendering - one or two leading
+   slashes, names separated by single slashes - of the location S assigns, and
+   that location consists of proper names only (no "", ".", ".."). *)
+Theorem C13_file :
+  forall cwd rootdir directory file,
+    isabs cwd = true ->
+    exists k, (k = 1 \/ k = 2) /\
+      file_path cwd (filedir cwd rootdir directory) file
+        = render k (s_file (resolve (cwdloc cwd) rootdir) directory file) /\
+      all_proper (s_file (resolve (cwdloc cwd) rootdir) directory file).
+Proof. exact file_path_spec. Qed.
+Print Assumptions C13_file.
+
+(* the same for every -I / -isystem value *)
+Theorem C13_include_dirs :
+  forall cwd rootdir directory i,
+    isabs cwd = true ->
+    exists k, (k = 1 \/ k = 2) /\
+      inc_path cwd (filedir cwd rootdir directory) i
+        = render k (resolve (s_dir (resolve (cwdloc cwd) rootdir) directory) i) /\
+      all_proper (resolve (s_dir (resolve (cwdloc cwd) rootdir) directory) i).
+Proof. exact inc_path_spec. Qed.
+Print Assumptions C13_include_dirs.
+
+(* what "rendering" means: read from anywhere, a rendered proper location
+   denotes exactly that location *)
+Theorem C13_render_denotes :
+  forall c k l, 1 <= k -> all_proper l -> resolve c (render k l) = l.
+Proof. exact resolve_render. Qed.
+Print Assumptions C13_render_denotes.
+
+(* os.path.join(a, b) read by a process = a, then b: the reason why joining to
+   the entry's directory is what a compiler started there sees *)
+Theorem C13_join_is_chdir :
+  forall l a b, resolve l (join a b) = resolve (resolve l a) b.
+Proof. exact resolve_join. Qed.
+Print Assumptions C13_join_is_chdir.
+
+(* normpath law: an absolute string normalises to one or two slashes followed
+   by the proper names of its location (no ".", "..", empty segment) *)
+Theorem C13_normpath_absolute :
+  forall t, isabs t = true ->
+    normpath t = render (initial_slashes t) (resolve [] t) /\
+    (initial_slashes t = 1 \/ initial_slashes t = 2).
+Proof. exact normpath_abs. Qed.
+Print Assumptions C13_normpath_absolute.
+
+(* non-vacuity: a relative `directory` with a '..' in the file and a relative -I *)
+Example C13_nonvacuous :
+  let cwd := s "/w" in let rootdir := s "/w/root" in
+  let d := Some (s "./build/") in
+  isabs cwd = true /\
+  file_path cwd (filedir cwd rootdir d) (s "..//src/./a.c") = s "/w/root/src/a.c" /\
+  s_file (resolve (cwdloc cwd) rootdir) d (s "..//src/./a.c") = [s "a.c"; s "src"; s "root"; s "w"] /\
+  inc_path cwd (filedir cwd rootdir d) (s "inc") = s "/w/root/build/inc" /\
+  inc_path cwd (filedir cwd (s "//w/root") None) (s "../x") = s "//w/x".
+Proof. vm_compute. repeat split. Qed.
